@@ -121,12 +121,9 @@ def storedCoords (f : Fmt) (dim : Nat) (ec : List Int) : List Int :=
   | .C => ec
   | .B => maskOf dim ec
 
-/-- the imposed shape handed to the children: U and C pass `shape=shape` on, Bitvector calls
-    `codec.encode(depth + 1, val, ranks, output, output_tensor)` without it -/
-def ishNext (f : Fmt) (ish : Option (List Nat)) : Option (List Nat) :=
-  match f with
-  | .B => none
-  | _ => ish.map List.tail
+/-- the imposed shape handed to the children: every format passes `shape=shape` on
+    (Bitvector too since /repo dceceff) -/
+def ishNext (_f : Fmt) (ish : Option (List Nat)) : Option (List Nat) := ish.map List.tail
 
 /-- the default payload of a non-leaf rank: an empty fiber -/
 def emptyT (d : Nat) : Tree Int Int (d + 1) := (show List (Int × Tree Int Int d) from [])
